@@ -587,3 +587,31 @@ def c06_multi_file_idx(ka: List[int], kb: List[int], la: List[int], lb: List[int
     post: _ >= 0
     """
     return _multi_file_idx(ka, kb, la, lb, swap)
+
+
+@cond('C13', bounds='two GVF files with <= 2 records each over 2 transcripts, any grouping and file order, every file '
+      'indexed (.idx written by the real to_line, read by the real load_index), byte lengths < 10000',
+      encodes=ENC_I + ['moPepGen.seqvar.VariantRecordPoolOnDisk.VariantRecordPoolOnDisk.load_index'],
+      codes=CODES_I, tokens=True, stubs=['as c13_index_scan', 'open / GVFMetadata.parse -> in-memory'], timeout=400)
+def c13_multi_file_idx(ka: List[int], kb: List[int], la: List[int], lb: List[int], swap: bool) -> int:
+    """
+    pre: 1 <= len(ka) <= 2 and 1 <= len(kb) <= 2
+    pre: len(la) == 3 and len(lb) == 3
+    pre: all(1 <= x < 10000 for x in la) and all(1 <= x < 10000 for x in lb)
+    post: _ >= 0
+    """
+    return _multi_file_idx(ka, kb, la, lb, swap)
+
+
+@cond('C13', bounds='two GVF files with <= 2 records each over 2 transcripts, any grouping and file order, index '
+      'generated on open, UNBOUNDED symbolic byte lengths', encodes=ENC_I + [
+      'moPepGen.seqvar.VariantRecordPoolOnDisk.VariantRecordPoolOnDisk.generate_index'], codes=CODES_I,
+      tokens=True, stubs=['as c13_index_scan', 'open / GVFMetadata.parse -> in-memory'], timeout=400)
+def c13_multi_file_pointers(ka: List[int], kb: List[int], la: List[int], lb: List[int],
+                            swap: bool) -> int:
+    """
+    pre: 1 <= len(ka) <= 2 and 1 <= len(kb) <= 2
+    pre: len(la) == 3 and len(lb) == 3
+    post: _ >= 0
+    """
+    return _multi_file(ka, kb, la, lb, swap)
